@@ -126,7 +126,97 @@ def t_createProcess(rep, ints):
     ])
 
 
+def expect(stdout=None, exit0=None, nonzero=False, contains=None):
+    """Go source of a check function: the message says what the property prescribes."""
+    conds = []
+    if stdout is not None:
+        conds.append('if so != %s { return %s }' % (go_quote(stdout), go_quote("stdout differs from what the property prescribes: " + repr(stdout))))
+    if exit0:
+        conds.append('if ex != 0 { return "exit number is not 0" }')
+    if nonzero:
+        conds.append('if ex == 0 { return "exit number is 0 although the call must fail" }')
+    if contains is not None:
+        conds.append('if !strings.Contains(so, %s) { return %s }' % (go_quote(contains), go_quote("stdout lacks " + repr(contains))))
+    return "func(so, se string, ex int) string { " + " ; ".join(conds) + ' ; return "" }'
+
+
+# Property-level probes: small murex scripts whose prescribed output follows from the property
+# statement. They are run against the real interpreter when an obligation of the property fails and
+# no function-level template exists; a probe that fails is a concrete failing input for the VIOLATION
+# line. Every probe passes on the unchanged tree (tools_probes.py checks that).
+PROBES = {
+    "C17": [
+        ("a [1..5] -> [2..3]", expect("2\n3\n")),
+        ("a [1..5] -> [2..]", expect("2\n3\n4\n5\n")),
+        ("a [1..5] -> [..2]", expect("1\n2\n")),
+        ("a [1..5] -> [..1]", expect("1\n")),
+        ("a [1..5] -> [-2..]", expect("4\n5\n")),
+        ("a [1..5] -> [-5..]", expect("1\n2\n3\n4\n5\n")),
+        ("a [1..5] -> [2..4]e", expect("3\n")),
+        ("a [1..5] -> [..3]e", expect("1\n2\n")),
+        ("a [1..3] -> [2..9]", expect("2\n3\n")),
+    ],
+    "C18": [
+        ("a [1..3]", expect("1\n2\n3\n")),
+        ("a [3..1]", expect("3\n2\n1\n")),
+        ("a [08..11]", expect("08\n09\n10\n11\n")),
+        ("a [98..101]", expect("98\n99\n100\n101\n")),
+        ("a [098..101]", expect("098\n099\n100\n101\n")),
+        ("a [7..007]", expect("007\n")),
+        ("a [1..2][1..2][1..2]", expect("111\n112\n121\n122\n211\n212\n221\n222\n")),
+        ("a x[1..2]y[3..4]", expect("x1y3\nx1y4\nx2y3\nx2y4\n")),
+    ],
+    "C23": [
+        ('function verif.f1 (a: str, !b: int [5]) { out "$(a):$(b)" }\nverif.f1 x', expect("x:5\n")),
+        ('function verif.f2 (!l: str, !c: int [7]) { out "<$(c)>" }\nverif.f2', expect("<7>\n")),
+        ('function verif.f3 (!a: str [x y]) { out "<$(a)>" }\nverif.f3', expect("<x y>\n")),
+        ('function verif.f4 (a: str, b: int) { out "$(b)$(a)" }\nverif.f4 q 12', expect("12q\n")),
+        ('function verif.f5 (n: int) { out ran }\nverif.f5 abc', expect(stdout="", nonzero=True)),
+    ],
+    "C35": [
+        (r"""out 'a&b <c> "d"' -> eschtml -> !eschtml""", expect('a&b <c> "d"\n')),
+        (r"""out 'x&amp;y' -> escape -> !escape""", expect("x&amp;y\n")),
+        (r"""out 'a+b c/d' -> escurl -> !escurl""", expect("a+b c/d\n")),
+        (r"""out 'tab\there "q"' -> escape -> !escape""", expect('tab\\there "q"\n')),
+    ],
+    "C38": [
+        ('tout json ([\"a\",\"b\"]) -> prepend x y', expect('["x","y","a","b"]')),
+        ('tout json ([\"a\",\"b\"]) -> append x y', expect('["a","b","x","y"]')),
+        ('tout json ([\"Monday\",\"Tu\",\"Sunday\",\"x\"]) -> match day', expect('["Monday","Sunday"]')),
+        ('tout json ([\"Monday\",\"Tu\",\"Sunday\",\"x\"]) -> !match day', expect('["Tu","x"]')),
+        ('tout json ([\"a\",\"b\",\"c\"]) -> mtac', expect('["c","b","a"]')),
+    ],
+    "C06": [
+        ("out (1+2*3)", expect("7\n")),
+        ("out (2*3+1)", expect("7\n")),
+        ("out (10-4-3)", expect("3\n")),
+        ("out (8/4/2)", expect("1\n")),
+        ("out (2+10/4)", expect("4.5\n")),
+        ("out (1-2*3+4)", expect("-1\n")),
+    ],
+    "C09": [
+        (r"""out 'a\nb $x ~ "q"'""", expect('a\\nb $x ~ "q"\n')),
+        (r"""out "a\sb\tc\\d\"e" """, expect('a b\tc\\d"e\n')),
+        (r"""out %(a\sb (c) d)""", expect("a\\sb (c) d\n")),
+        (r"""out "d\"e" """, expect('d"e\n')),
+        (r"""out "c\\d\"e" x""", expect('c\\d"e x\n')),
+    ],
+    "C15": [
+        ('tout json ([\"a\",\"b\",\"c\"]) -> foreach v { out "<$(v)>" }', expect("<a>\n<b>\n<c>\n")),
+        ("a [1..3] -> foreach v { out \"$(v)$(v)\" }", expect("11\n22\n33\n")),
+    ],
+}
+
+
+def t_probes(rep, ints):
+    pid = rep.get("property", "")
+    if pid not in PROBES:
+        return None
+    return script_test("builtins/core/structs", "structs_test", PROBES[pid])
+
+
 def install(T, g):
+    g["PROPERTY_PROBES"] = t_probes
     T["lang.createProcess"] = t_createProcess
     T["lang/expressions.(*ParserT).parseStatement"] = t_parseBlock
     T["lang/expressions.(*ParserT).parseExpression"] = t_parseBlock
